@@ -263,6 +263,21 @@ func (x *run) setup() error {
 				}
 			}
 		}
+		if x.on("C14") {
+			// refs of the surrounding project whose names merely start like git-bug's namespaces:
+			// removal must leave them alone (they point at some commit that exists here)
+			if h, err := r.Raw.ResolveRef("refs/identities/" + string(rs.own[0])); err == nil {
+				look := []string{"refs/heads/bugs-triage", "refs/heads/identities-v2", "refs/bugs-archive/2019", "refs/identities.bak/old"}
+				for _, rem := range r.Remotes {
+					look = append(look, "refs/remotes/"+rem+"/bugs-triage", "refs/remotes/"+rem+"/identities-v2", "refs/remotes/"+rem+"/main")
+				}
+				for _, ref := range look {
+					if err := r.Raw.UpdateRef(ref, h); err != nil {
+						return err
+					}
+				}
+			}
+		}
 		if x.on("C15") {
 			if err := x.prepareHost(rs, i); err != nil {
 				return fmt.Errorf("prepare host repository: %w", err)
